@@ -101,7 +101,7 @@ def _fold(X, st, selfv, toks):
     cap0 = _cap(X, st, selfv, z3.IntVal(X.ctx.consts["settings"]["DEFAULT_TIME_SIGNATURE_NUMERATOR"]), z3.IntVal(X.ctx.consts["settings"]["DEFAULT_TIME_SIGNATURE_DENOMINATOR"]))
     init = {"time": 0, "time_bar": 0, "cap_total": cap0, "cap_rem": cap0, "trk": 0, "val": 24, "vel": 127}
     ax = [F[c](0) == init[c] for c in COMPS]
-    ax += [z3.ForAll([k], z3.Implies(k >= 0, F[c](k + 1) == nxt[c]), patterns=[F[c](k + 1)]) for c in COMPS]
+    ax += [safe_forall([k], z3.Implies(k >= 0, F[c](k + 1) == nxt[c]), patterns=[F[c](k + 1)]) for c in COMPS]
     ax += enc_axioms()
     cache[key] = (F, ax)
     X.notes.append("spec: dfold = left fold of the property-level decoder step over the token list (recursion axioms)")
@@ -155,3 +155,28 @@ contract(f"{TK}.get_info", params={"self": f"ref:{TK}", "tokens": "list:tok", "f
              ("annotated_pitch", "forall(0, i, lambda q: implies(is_note_tok(tokens[q]), info_pitch[q] == tok_pitch(tokens[q]) and info_cof[q] == cofpos(tok_pitch(tokens[q]) % 12)))"),
          ])},
          props=["C19"])
+
+# ---------------------------------------------------------------------------------------------- detokenise  (C19.c, C02.d, C01.e/h)
+SEQS_LIGHT = lambda L, n: f"len({L}) == {n} and forall(0, len({L}), lambda k: not is_none({L}[k]))"
+CFG_DET = (CFG_OK + " and self.num_tracks >= 1 and forall(0, len(self.note_values), lambda q: self.note_values[q] >= 0)"
+           " and forall(0, len(self.velocity_bins), lambda q: self.velocity_bins[q] >= 0) and self.pitch_range[0] >= 0")
+CLOCK = ("cur_time == dfold(self, tokens, i, 'time') and cur_time_bar == dfold(self, tokens, i, 'time_bar')"
+         " and cur_bar_capacity_total == dfold(self, tokens, i, 'cap_total') and cur_bar_capacity_remaining == dfold(self, tokens, i, 'cap_rem')"
+         " and prv_track == dfold(self, tokens, i, 'trk') and prv_value == dfold(self, tokens, i, 'val') and prv_velocity == dfold(self, tokens, i, 'vel')")
+SANE = "0 <= prv_track and prv_track < self.num_tracks"
+IDX = "loop_index('L1')"
+NOFRAME = {"@msgfields": "*", "@lists": "*", "_messages": "*", "_abs": "*", "_rel": "*", "_abs_stale": "*", "_rel_stale": "*"}
+contract(f"{TK}.detokenise", params={"self": f"ref:{TK}", "tokens": "list:tok"}, result="list:ref:Sequence", allocates=True,
+         requires=[TOKS_OK, CFG_DET],
+         modifies=dict(NOFRAME),       # detokenise builds new sequences; no frame claim is made here (ownership is C16's business)
+         assume_pre=["Sequence.add_absolute_message", "Sequence.__init__"],
+         ensures=[("one_sequence_per_track", SEQS_LIGHT("result", "self.num_tracks"))],
+         asserts=[("note_on_placed_at_decoder_clock", "sequences[prv_track].add_absolute_message(Message(message_type=MessageType.NOTE_ON",
+                   f"cur_time == dfold(self, tokens, {IDX}, 'time') and note_pitch == tok_pitch(tokens[{IDX}]) and prv_track == dnote(self, tokens, {IDX}, 'trk')"
+                   f" and prv_value == dnote(self, tokens, {IDX}, 'val') and prv_velocity == dnote(self, tokens, {IDX}, 'vel')")],
+         loops={
+             "L0": dict(fingerprint="for _ in range(self.num_tracks)", inv=[("built", "len(_comp0) == i and forall(0, i, lambda k: not is_none(_comp0[k]))")]),
+             "L1": dict(fingerprint="for token in tokens", inv=[("clock_is_fold", CLOCK), ("sane", SANE), ("sequences", SEQS_LIGHT("sequences", "self.num_tracks"))]),
+             "L3": dict(fingerprint="for sequence in sequences", inv=[("sequences", SEQS_LIGHT("sequences", "self.num_tracks")), ("clock_kept", "cur_time == entry(cur_time)")]),
+         },
+         props=["C19", "C02", "C01"])
